@@ -41,7 +41,7 @@ var c12Payloads = []string{
 	"<>\"'&", "%3C+~", "{{ 7 }}{% if %}",
 }
 
-var c12Wrappers = []string{"plain", "safe-same", "safe-other", "safe-nested-other", "safe-other-with-a-derived-value-safe-for-this-type", "named-int-with-String", "named-bool-with-String", "named-float-with-String", "struct-with-String"}
+var c12Wrappers = []string{"plain", "safe-same", "safe-other", "safe-nested-other", "safe-other-with-a-derived-value-safe-for-this-type", "named-int-with-String", "named-bool-with-String", "named-float-with-String", "struct-with-String", "slice-with-String", "map-with-String", "safe-for-no-type", "pointer-to-slice-with-String"}
 
 var escFns = map[string]func(string) string{"html": escape.HTML, "html_attr": escape.HTMLAttribute, "js": escape.JS, "css": escape.CSS, "url": escape.URLQueryParam}
 
@@ -541,6 +541,18 @@ func (p *c12) Run(i int) (res fw.Result) {
 				x = gen.KindFloat(1.5)
 			case 8:
 				x = gen.ValStringer{S: payload}
+			case 9:
+				gen.KindText = payload
+				x = gen.KindSlice{1, 2}
+			case 10:
+				gen.KindText = payload
+				x = gen.KindMap{"k": 1}
+			case 11:
+				// marked safe, but for no content type at all: safe nowhere
+				x = stick.NewSafeValue(payload)
+			case 12:
+				gen.KindText = payload
+				x = &gen.KindSlice{3}
 			}
 			ctx := map[string]stick.Value{"x": x, "t": true, "f": false, "arr": []stick.Value{x, x}, "hash": map[string]stick.Value{"k": x}}
 			var buf bytes.Buffer
